@@ -84,11 +84,11 @@ func init() {
 	lightNodes := func(r *Rng) []NodeCfg {
 		return []NodeCfg{{Kind: "light"}, {Kind: "light"}, {Kind: "light", Big: bigOffset(r)}, {Kind: "stump"}, {Kind: "light", Big: bigOffset(r)}}
 	}
-	reg(&Profile{Name: "c07", HugePermille: 2, Property: "C07", Oracles: []string{"roots", "light"},
+	reg(&Profile{Name: "c07", PForged: 10, HugePermille: 2, Property: "C07", Oracles: []string{"roots", "light"},
 		Nodes: lightNodes, MaxBlocks: 40, MaxAdds: 40, PReorg: 10, PSnapCrash: 3, NetFaults: true})
-	reg(&Profile{Name: "c08", HugePermille: 1, Property: "C08", Oracles: []string{"roots", "light"},
+	reg(&Profile{Name: "c08", PForged: 10, HugePermille: 1, Property: "C08", Oracles: []string{"roots", "light"},
 		Nodes: lightNodes, MaxBlocks: 40, MaxAdds: 40, PReorg: 35, PSnapCrash: 3, NetFaults: true})
-	reg(&Profile{Name: "c11", HugePermille: 2, Property: "C11", Oracles: []string{"roots", "updatedata"},
+	reg(&Profile{Name: "c11", PForged: 10, HugePermille: 2, Property: "C11", Oracles: []string{"roots", "updatedata"},
 		Nodes: func(r *Rng) []NodeCfg {
 			return []NodeCfg{{Kind: "stump"}, {Kind: "stump", Big: bigOffset(r)}, {Kind: "stump", Big: bigOffset(r)}}
 		},
